@@ -223,6 +223,16 @@ def build_jobs(tier, seed, kf_on):
                 for (na, sa), (nb, sb) in zip(sides, sides[1:]):
                     jobs.append(simple.tv_job(f"{ob['op']} [{ob['expr']}] {na} vs {nb} @{n}", SCHEMA, rows, sa, sb, kf_on, tier, assume=assume,
                                               validate=(0 if "postgresql" in (na + nb) else 1), max_paths=2000, wall_s=90))
+            # the Polars executor (not in the catalog): same value whenever it does not raise -- against the documented meaning where there is one,
+            # otherwise against the first backend that claims the method
+            pl_side = {"kind": "polars", "src": src, "lazy": False}
+            if doc is not None and doc[0] in DOC:
+                ref = {"kind": "fn", "fn": "vf.checks.c05:ref_extend", "args": ["m", "res", doc[0], doc[1], []], "label": "documented meaning"}
+                jobs.append(simple.tv_job(f"{ob['op']} [{ob['expr']}] documented vs polars @{n}", SCHEMA, rows, ref, pl_side, kf_on, tier, assume=assume,
+                                          b_may_raise=True, max_paths=2000, wall_s=90))
+            elif sides:
+                jobs.append(simple.tv_job(f"{ob['op']} [{ob['expr']}] {sides[0][0]} vs polars @{n}", SCHEMA, rows, sides[0][1], pl_side, kf_on, tier, assume=assume,
+                                          b_may_raise=True, max_paths=2000, wall_s=90))
     return jobs
 
 
